@@ -91,3 +91,73 @@ Proof.
   - destruct Hrep as [Ha H3]. rewrite Ha, H3. cbn [andb].
     eexists; split; [reflexivity|]. apply after_sie_leaves.
 Qed.
+
+(* ---------- origin requests of the validation response handler ---------- *)
+Lemma OriginReqs_weaken {A} (R R' : request -> Prop) (p : prog A) :
+  (forall r, R r -> R' r) -> OriginReqs R p -> OriginReqs R' p.
+Proof. intros H Hp; induction Hp; constructor; auto. Qed.
+
+Lemma no_origin_reqs {A} R (p : prog A) : NoOrigin p -> OriginReqs R p.
+Proof. intros H; induction H; constructor; auto. Qed.
+
+Lemma hvr_reqs R ctx q rep : OriginReqs R (handle_validation_response ctx q rep).
+Proof.
+  unfold handle_validation_response.
+  assert (Hs : forall r0 refs, OriginReqs R (store_response q r0 (rc_url_key ctx) refs (rc_start ctx) (rc_end ctx) (rc_ref_index ctx))).
+  { intros; apply no_origin_reqs, ErrOnly.store_response_noorigin. }
+  assert (Hd : forall ks done (c : list bytes -> prog outcome),
+             (forall d, OriginReqs R (c d)) -> OriginReqs R (del_all ks done c)).
+  { induction ks as [|k ks IH]; intros done c Hc; cbn; auto. destruct (existsb _ _); auto. constructor; auto. }
+  assert (Hl : forall u h hs done (c : list bytes -> prog outcome),
+             (forall d, OriginReqs R (c d)) -> OriginReqs R (invalidate_locations hs u h done c)).
+  { intros u h; induction hs as [|hn hs IH]; intros done c Hc; cbn [invalidate_locations]; auto.
+    destruct (hget hn h); [apply IH, Hc|]. destruct (parse_url _); [|constructor].
+    destruct (same_origin _ _); [|apply IH, Hc].
+    unfold get_refs_clean; constructor; intros ans. destruct (ref_ids _); [|constructor].
+    apply Hd; intros d'; apply IH, Hc. }
+  assert (Hi : forall u h refs key (c : prog outcome), OriginReqs R c -> OriginReqs R (invalidate_cache u h refs key c)).
+  { intros; unfold invalidate_cache. destruct (ref_ids _); [|constructor].
+    apply Hd; intros d; apply Hl; intros d'; apply Hd; auto. }
+  destruct rep as [|r].
+  - cbn [andb]. match goal with |- OriginReqs _ (if ?c then _ else _) => destruct c end; [|constructor].
+    constructor; intros now; destruct (can_stale_on_error _ _ _); constructor.
+  - destruct (is_get (q_method q) && (p_status r =? 304)).
+    + destruct (_ || _); [constructor|]. apply OriginReqs_bind; [apply Hs|intros; constructor].
+    + assert (Hafter : OriginReqs R
+        (let cc_resp := parse_cc (p_hdr r) in
+         if can_store_response r (rc_cc_req ctx) cc_resp
+         then r1 <- store_response q r (rc_url_key ctx) (rc_refs ctx) (rc_start ctx) (rc_end ctx) (rc_ref_index ctx);;
+              Ret (OResp (with_hdr r1 (apply_status MISS (p_hdr r1))))
+         else if is_unsafe_method (q_method q) && is_non_error_status (p_status r)
+              then invalidate_cache (q_url q) (p_hdr r) (rc_refs ctx) (rc_url_key ctx)
+                     (Ret (OResp (with_hdr r (apply_status BYPASS (p_hdr r)))))
+              else Ret (OResp (with_hdr r (apply_status BYPASS (p_hdr r)))))).
+      { cbv zeta. destruct (can_store_response _ _ _).
+        - apply OriginReqs_bind; [apply Hs|intros; constructor].
+        - destruct (_ && _); [apply Hi|]; constructor. }
+      match goal with |- OriginReqs _ (if ?c then _ else _) => destruct c end; [|exact Hafter].
+      constructor; intros now; destruct (can_stale_on_error _ _ _); [constructor|exact Hafter].
+Qed.
+
+
+Lemma reqs_none_noorigin {A} (R : request -> Prop) (p : prog A) :
+  (forall r, ~ R r) -> OriginReqs R p -> NoOrigin p.
+Proof.
+  intros HR H; induction H.
+  - apply NO_Ret.
+  - apply NO_GetRefs; auto.
+  - apply NO_GetEntry; auto.
+  - apply NO_SetEntry; auto.
+  - apply NO_SetRefs; auto.
+  - apply NO_Del; auto.
+  - exfalso. eapply HR; eassumption.
+  - apply NO_Now; auto.
+  - apply NO_Spawn; auto.
+  - apply NO_Crash.
+  - apply NO_Unmodelled.
+Qed.
+Lemma reqs_false_noorigin {A} (p : prog A) : OriginReqs (fun _ => False) p -> NoOrigin p.
+Proof. apply reqs_none_noorigin. intros r H; exact H. Qed.
+
+Lemma hvr_noorigin ctx q rep : NoOrigin (handle_validation_response ctx q rep).
+Proof. apply reqs_false_noorigin, hvr_reqs. Qed.
